@@ -10,6 +10,7 @@ import (
 	"fmt"
 	"os"
 	"path/filepath"
+	"strings"
 	"sync/atomic"
 	"time"
 
@@ -47,6 +48,14 @@ func Skeleton(typeName string, keyIdx int) *Value {
 	return v
 }
 
+func bytesOf(b byte, n int) []byte {
+	out := make([]byte, n)
+	for i := range out {
+		out[i] = b
+	}
+	return out
+}
+
 var hostileConsts = []uint64{0xffffffffffffffff, 0xfffffffffffffffe, 0x7fffffffffffffff, 0x8000000000000000, 0x7fffffff, 0x80000000, 0x7ffffff0, 0xffff, 0xfffe, 0x8000, 0x7fff, 0x100, 0xff}
 
 // mutateHostile applies one or more structural mutations to a valid rendering.
@@ -58,10 +67,15 @@ func mutateHostile(rt *rapid.T, r *Rendered, le bool) ([]byte, string, bool) {
 		switch sp.Kind {
 		case "count", "prefix", "len":
 			prefixes = append(prefixes, sp)
+		case "disc":
+			discs = append(discs, sp)
 		}
 	}
-	_ = discs
-	kind := rapid.SampledFrom([]string{"prefix", "prefix", "prefix", "truncate", "flip", "prefix+truncate", "flip+truncate", "splice"}).Draw(rt, "mut")
+	kinds := []string{"prefix", "prefix", "prefix", "truncate", "flip", "prefix+truncate", "flip+truncate", "splice"}
+	if len(discs) > 0 {
+		kinds = append(kinds, "disc", "disc", "disc+truncate")
+	}
+	kind := rapid.SampledFrom(kinds).Draw(rt, "mut")
 	if len(w) == 0 {
 		kind = "splice"
 	}
@@ -101,7 +115,40 @@ func mutateHostile(rt *rapid.T, r *Rendered, le bool) ([]byte, string, bool) {
 			w[i] ^= 1 << uint(rapid.IntRange(0, 7).Draw(rt, "bit"))
 		}
 	}
+	doDisc := func() {
+		sp := discs[rapid.IntRange(0, len(discs)-1).Draw(rt, "whichdisc")]
+		var nb []byte
+		switch rapid.IntRange(0, 5).Draw(rt, "dv") {
+		case 0: // blank: all pad bytes (text keys) / zero
+			nb = make([]byte, sp.Len)
+			if strings.HasSuffix(sp.Path, "ApplId") {
+				for i := range nb {
+					nb[i] = byte(sp.Max)
+				}
+			}
+		case 1:
+			nb = make([]byte, sp.Len)
+		case 2:
+			nb = bytesOf(0xff, sp.Len)
+		case 3: // digits
+			nb = make([]byte, sp.Len)
+			for i := range nb {
+				nb[i] = '0' + byte(rapid.IntRange(0, 9).Draw(rt, "digit"))
+			}
+		case 4: // one byte of the key replaced by the pad / a space / NUL
+			nb = append([]byte{}, w[sp.Off:sp.Off+sp.Len]...)
+			nb[rapid.IntRange(0, sp.Len-1).Draw(rt, "kpos")] = rapid.SampledFrom([]byte{' ', 0, byte(sp.Max), 0xff}).Draw(rt, "kb")
+		default:
+			nb = rapid.SliceOfN(rapid.Byte(), sp.Len, sp.Len).Draw(rt, "kraw")
+		}
+		copy(w[sp.Off:], nb)
+	}
 	switch kind {
+	case "disc":
+		doDisc()
+	case "disc+truncate":
+		doDisc()
+		doTruncate()
 	case "prefix":
 		doPrefix()
 		if rapid.Bool().Draw(rt, "second") {
